@@ -295,4 +295,68 @@ theorem ggswEncryptSk_facts (be : BE) (n : Nat) (k : K) (hn : n % 8 = 0) :
   simp only [reqA]
   omega
 
+/-! ### poulpy-bin-fhe -/
+
+theorem cmux_facts (be : BE) (n : Nat) (res : G) (k : K) (hn : n % 8 = 0)
+    (hres : res.rank = k.rankOut) (hb : res.b2k = k.b2k) (hb0 : 0 < k.b2k) (hd : 1 ≤ k.dsize) :
+    fits (treeCmux be n res k) = true ∧ aligned (treeCmux be n res k) = true ∧
+    reqA (treeCmux be n res k) ≤ tbCmux be n res k := by
+  obtain ⟨h1, h2, h3⟩ := extInternal_facts be n (res.rank + 1) res k hn hb hb0 hd (by rw [hres])
+  have hD := dft_mod64 be hn (res.rank + 1) k.size
+  have hlb := reqA_loop_le (res.rank + 1) (treeBigNormalize be n)
+  have hla : aligned (loop (res.rank + 1) (treeBigNormalize be n)) = true := aligned_loop _ _ (by simp [treeBigNormalize])
+  have hlf : fits (loop (res.rank + 1) (treeBigNormalize be n)) = true := fits_loop _ _ (by simp [treeBigNormalize])
+  have hbn : reqA (treeBigNormalize be n) = bigNormTmp be n := by simp [treeBigNormalize]
+  unfold treeCmux tbCmux
+  rw [← hres]
+  refine ⟨by simp [fits, h1, hlf], by simp [aligned, h2, hla, hD], ?_⟩
+  simp only [reqA]
+  omega
+
+theorem takeMany_facts (b : Nat) (k : AllocTree) (hb : b % 64 = 0) (hf : fits k = true) (ha : aligned k = true) :
+    ∀ c, fits (takeMany c b k) = true ∧ aligned (takeMany c b k) = true ∧ reqA (takeMany c b k) = c * b + reqA k := by
+  intro c
+  induction c with
+  | zero => simp [takeMany, hf, ha]
+  | succ c ih =>
+    obtain ⟨i1, i2, i3⟩ := ih
+    refine ⟨by simp [takeMany, fits, i1], by simp [takeMany, aligned, i2, hb], ?_⟩
+    simp only [takeMany, reqA, i3, Nat.succ_mul]; omega
+
+theorem tbExtInternal_mod64 (be : BE) (n : Nat) (a : G) (k : K) (hn : n % 8 = 0) : tbExtInternal be n a k % 64 = 0 := by
+  unfold tbExtInternal
+  have h1 := dft_mod64 be hn (k.rankOut + 1) (ceilDiv (ceilDiv a.maxK k.b2k) k.dsize)
+  have h2 := dft_mod64 be hn (k.rankOut + 1) k.size
+  have h3 := vmpTmp_mod64 (ceilDiv (ceilDiv a.maxK k.b2k) k.dsize) (ceilDiv (ceilDiv a.maxK k.b2k) k.dsize) (k.rankOut + 1)
+  simp only
+  split <;> omega
+
+theorem tbExecBdd_mod64 (be : BE) (n state : Nat) (res : G) (k : K) (hn : n % 8 = 0) : tbExecBdd be n state res k % 64 = 0 := by
+  unfold tbExecBdd tbCmux
+  have h1 := gbytes_mod64 hn res
+  have h2 := dft_mod64 be hn (k.rankOut + 1) k.size
+  have h3 := tbExtInternal_mod64 be n res k hn
+  have h4 := bignorm_mod64 be hn
+  have h5 : (2 * state * res.bytes n) % 64 = 0 := by
+    obtain ⟨m, hm⟩ := Nat.dvd_of_mod_eq_zero h1
+    rw [hm, ← Nat.mul_assoc, Nat.mul_comm _ 64, Nat.mul_assoc]; exact Nat.mul_mod_right 64 _
+  omega
+
+theorem execBdd_ok (be : BE) (n threads state : Nat) (res : G) (k : K) (hn : n % 8 = 0)
+    (hres : res.rank = k.rankOut) (hb : res.b2k = k.b2k) (hb0 : 0 < k.b2k) (hd : 1 ≤ k.dsize) (w : Arena)
+    (h : threads * tbExecBdd be n state res k ≤ w.available) : (run (treeExecBdd be n threads state res k) w).isOk = true := by
+  obtain ⟨c1, c2, c3⟩ := cmux_facts be n res k hn hres hb hb0 hd
+  obtain ⟨t1, t2, t3⟩ := takeMany_facts (res.bytes n) (treeCmux be n res k) (gbytes_mod64 hn res) c1 c2 (2 * state)
+  have hlen := tbExecBdd_mod64 be n state res k hn
+  have hbody : req (treeEvalLevel be n state res k) ≤ tbExecBdd be n state res k := by
+    refine Nat.le_trans (req_le_reqA_of_aligned _ t2) ?_
+    unfold treeEvalLevel tbExecBdd
+    rw [t3]; omega
+  apply run_ok_of_aligned
+  · simp only [treeExecBdd, fits, Bool.and_eq_true, Bool.or_eq_true, decide_eq_true_eq]
+    exact ⟨⟨Or.inr hbody, t1⟩, trivial⟩
+  · simp only [treeExecBdd, aligned, Bool.and_eq_true, Bool.or_eq_true, beq_iff_eq]
+    exact ⟨⟨Or.inl hlen, t2⟩, trivial⟩
+  · simp only [treeExecBdd, reqA]; omega
+
 end Scratch
